@@ -1,4 +1,4 @@
-"""C20 -- completion proposals (clauses R20.1-R20.5)."""
+"""C20 -- completion proposals (clauses R20.1-R20.6)."""
 from __future__ import annotations
 
 import ast
@@ -14,7 +14,7 @@ EXPLANATION = (
     "call site -- necessary and sufficient for 'every proposal extends the typed text'.  R20.2: the scope walk uses "
     "get_names() only for the innermost scope and get_propagated_names() for enclosing scopes (so class attributes are "
     "not offered inside methods).  R20.3: the scope lookup is given the line number and the indentation of the same "
-    "line.  R20.4: in find_definition the offset-restricting filter precedes the accepting identity filter.  R20.5 (=R14.8): the word finder consults the hard-keyword oracle only (soft keywords are identifiers).  'Returns without internal error at every position' and completeness are not decided."
+    "line.  R20.4: in find_definition the offset-restricting filter precedes the accepting identity filter.  R20.5 (=R14.8): the word finder consults the hard-keyword oracle only (soft keywords are identifiers).  R20.6: a definition line is compared with lines of the completed module only under a test that the definition's module is that module.  'Returns without internal error at every position' and completeness are not decided."
 )
 ASSUMPTIONS = ["proposal name is the first constructor argument"]
 
@@ -161,3 +161,60 @@ def check(ctx, res) -> None:
     from .common import hard_keyword_rule
 
     hard_keyword_rule(ctx, res, "R20.5")
+
+    # ---- R20.6 line numbers are comparable only within one module: where the completion engine compares the LINE of a
+    # definition location with a line of the module being completed, the same decision tests the location's MODULE
+    from ..cfg import CFG as _CFG2
+
+    n6 = 0
+    for f in sorted(idx.functions.values(), key=lambda f: f.qualname):
+        if f.unit.modname != "rope.contrib.codeassist":
+            continue
+        locs = {}   # name -> ("pair", None) | ("line", modvar) | ("mod", linevar)
+        for x in walk_local(f.node):
+            if isinstance(x, ast.Assign) and isinstance(x.value, ast.Call) and call_name(x.value) == "get_definition_location":
+                t = x.targets[0]
+                if isinstance(t, ast.Name):
+                    locs[t.id] = ("pair", None)
+                elif isinstance(t, ast.Tuple) and len(t.elts) == 2 and all(isinstance(e, ast.Name) for e in t.elts):
+                    locs[t.elts[1].id] = ("line", t.elts[0].id)
+                    locs[t.elts[0].id] = ("mod", t.elts[1].id)
+        if not locs:
+            continue
+
+        def is_line(e: ast.AST) -> bool:
+            return (isinstance(e, ast.Name) and locs.get(e.id, ("", 0))[0] == "line") or \
+                (isinstance(e, ast.Subscript) and isinstance(e.value, ast.Name) and locs.get(e.value.id, ("", 0))[0] == "pair"
+                 and isinstance(e.slice, ast.Constant) and e.slice.value == 1)
+
+        def is_mod(e: ast.AST) -> bool:
+            return (isinstance(e, ast.Name) and locs.get(e.id, ("", 0))[0] == "mod") or \
+                (isinstance(e, ast.Subscript) and isinstance(e.value, ast.Name) and locs.get(e.value.id, ("", 0))[0] == "pair"
+                 and isinstance(e.slice, ast.Constant) and e.slice.value == 0)
+
+        def mod_test(t: ast.AST) -> bool:
+            return isinstance(t, ast.Compare) and any(isinstance(o, (ast.Eq, ast.Is)) for o in t.ops) and \
+                any(is_mod(e) for e in [t.left, *t.comparators])
+
+        cfg = None
+        for x in walk_local(f.node):
+            if not (isinstance(x, ast.Compare) and any(isinstance(o, (ast.Lt, ast.LtE, ast.Gt, ast.GtE)) for o in x.ops)):
+                continue
+            if not any(is_line(e) for e in [x.left, *x.comparators]):
+                continue
+            n6 += 1
+            ok = False
+            for b in walk_local(f.node):
+                if isinstance(b, ast.BoolOp) and isinstance(b.op, ast.And) and any(v is x for v in b.values) and any(mod_test(v) for v in b.values):
+                    ok = True
+            if not ok:
+                cfg = cfg or _CFG2(f.node)
+                for nd in cfg.node_containing(x):
+                    if any(pol and mod_test(t) for t, pol in cfg.guards(nd.id)):
+                        ok = True
+            res.add("R20.6", f"{f.qualname.split('.', 3)[-1]}|line-compare#{n6}", ok, f"{f.unit.rel}:{x.lineno}",
+                    "the definition line is compared only together with a test that the definition lies in this module" if ok else
+                    f"{f.name} compares the line of a definition location (`{ast.unparse(x)}`) with lines of the module being completed without testing that "
+                    "the definition is in this module: a name imported from another module whose definition happens to sit on a later line number "
+                    "there is taken for a local defined after the cursor and is not offered", function=f.qualname)
+    res.floor("R20.6", "definition-line comparisons in the completion engine", n6, 1)
